@@ -2,8 +2,10 @@
 {'harness': 'c17',
  'props': 'Props/C17.v',
  'models': ['Base/Tree.v', 'Model/Stream.v'],
- 'trusted': ['reachable-tree size is measured by the harness through RawRecord().Raw().(*idr.Node) and '
-             'parent links (public API)',
+ 'trusted': ['reachable size is measured by the harness after every Read during which the format reader returned a node '
+             '(transformed or failed with a continuable error; the node is taken from the logging FileFormat wrapper of vh, '
+             'a public extension point, and for transformed records it is checked to be RawRecord().Raw()): the tree under the '
+             'root found through Parent links, and the closure over Parent/FirstChild/LastChild/PrevSibling/NextSibling',
              'record-at-a-time readers (hierarchy reader, EDI, fixed-length, old csv) enter through the '
              'small attach/filter/release model flat_run; the XML/JSON stream readers through the C04 reader '
              'models',
